@@ -182,10 +182,28 @@ def real_mode_check(ctx):
         modes = ("process", "thread", "serial")
         tasks = []
         for k, (tc, mode) in enumerate(zip((search.SpecTask, search.SpecTaskB, search.SpecTaskC), modes)):
-            tasks.append(tc(variables=search.build_vars([("contmulti", ([-5.0] * 3, [5.0] * 3))]), data={"obj": "sphere", "record_where": f"{base}-{mode}", "delay": 0.002}, seed=3))
+            tasks.append(tc(variables=search.build_vars([("contmulti", ([-5.0] * 3, [5.0] * 3))]), data={"obj": "sphere", "record_where": f"{base}-{mode}", "delay": 0.002}, seed=3,
+                            minmax=("max" if k != 1 else "min")))
         try:
             mt = Multitask((cls(cfg),), tuple(tasks), modes=modes, n_workers=4)
             with quiet(): mt.execute(n_trials=1, n_jobs=2)
+            # what execute() hands back for each pair IS the result of that run: whole generations (population_size agents each, one per cycle plus the initial one),
+            # best_solution the optimum of the last generation in the task's direction, and - for the serial pair on a seeded task - the very run a direct
+            # optimize() call produces
+            for frame in mt._df2:
+                for col in frame.columns:
+                    for trial in frame[col]:
+                        res = trial["solution"] if isinstance(trial, dict) else trial
+                        sizes = [len(g.agents) for g in res.evolution]
+                        mm = str(getattr(res.task_type, "value", res.task_type))
+                        pick = max if mm == "max" else min
+                        meta_r = {"kind": "real-modes", "optimizer": nm, "pair": col, "direction": mm, "generation sizes": sizes}
+                        if len(sizes) != 3 or any(z != 12 for z in sizes):
+                            ctx.violation("execute:result is not the run's result (generations)", f"{nm}, pair {col} ({mm}): execute() returns an evolution with generation sizes {sizes}; "
+                                          f"the run has 3 generations of 12 agents", meta_r)
+                        elif res.best_solution.cost != pick(a.cost for a in res.evolution[-1].agents):
+                            ctx.violation("execute:result is not the run's result (best_solution)", f"{nm}, pair {col} ({mm}): best_solution.cost {res.best_solution.cost!r} is not the "
+                                          f"optimum {pick(a.cost for a in res.evolution[-1].agents)!r} of the last generation returned", meta_r)
             seen = {}
             for mode in modes:
                 pids, threads = set(), set()
@@ -203,6 +221,19 @@ def real_mode_check(ctx):
                 ctx.violation("execute:thread pair not run in threads", f"{nm}: the pair designated 'thread' ran in {seen['thread'][0]} process(es) / {seen['thread'][1]} thread(s)", {"kind": "real-modes", **meta})
             if seen["serial"] != (1, 1):
                 ctx.violation("execute:serial pair not serial", f"{nm}: the pair designated 'serial' ran in {seen['serial'][0]} process(es) / {seen['serial'][1]} thread(s)", {"kind": "real-modes", **meta})
+            # (after the placement evidence was read: this direct run logs into the same files)
+            try:
+                ser = next(t for t, mo in zip(tasks, modes) if mo == "serial")
+                with quiet(): direct = cls(cfg).optimize(ser, mode="serial")
+                col = f"{cls(cfg).name}_{ser.name}"
+                got_r = [tr["solution"] for fr in mt._df2 if col in fr.columns for tr in fr[col]][0]
+                a_ = [[(tuple(x.position), x.cost) for x in g.agents] for g in direct.evolution]
+                b_ = [[(tuple(x.position), x.cost) for x in g.agents] for g in got_r.evolution]
+                if a_ != b_ or direct.best_solution.cost != got_r.best_solution.cost:
+                    ctx.violation("execute:serial pair differs from a direct run", f"{nm}: the result execute() returns for the serial pair on a seeded task differs from "
+                                  f"optimize(task, mode='serial') on the same task (generations {[len(g) for g in b_]} vs {[len(g) for g in a_]})", {"kind": "real-modes", "optimizer": nm})
+            except StopIteration:
+                pass
         finally:
             for f in glob.glob(base + "-*"): os.unlink(f)
     return n
